@@ -6,6 +6,7 @@ package main
 import (
 	"fmt"
 	"go/ast"
+	"go/token"
 	"go/types"
 	"os"
 	"path/filepath"
@@ -658,5 +659,80 @@ func ruleTPL4(c *Ctx) {
 		}
 		c.check(bad == "", rule, dir+"/_actions/row-order", dir, "every action row lists its terminals in the order the current generator emits them (by "+key+")",
 			"the checked-in action table was not produced by the current generator, which orders each row by Terminal."+key+": "+bad)
+	}
+}
+
+// ---- TPL-5: the token constants of a directory are those the grammar next to it declares ----
+//
+// The first thing that goes stale when a grammar is edited and the directory is not regenerated is
+// the list of terminals. base.gen.go must declare EOF, ERROR and then one constant per token rule
+// and @external name of the .lox files of the directory, in file (glob) and declaration order -
+// the numbering NUM-1..3 describe. This is read from both sources without running anything; it
+// does not decide the automata.
+var loxTokenDecl = regexp.MustCompile(`(?m)^[ \t]*(?:@external[ \t]+)?([A-Z][A-Za-z0-9_]*)[ \t]*(=|$)`)
+
+func ruleTPL5(c *Ctx) {
+	const rule = "TPL-5"
+	p := c.Prog
+	n := 0
+	for _, dir := range instanceDirs {
+		pk := p.Pkg(dir)
+		if pk == nil {
+			c.unres(rule, dir, dir, "package not loaded")
+			continue
+		}
+		// declared by the grammar
+		want := []string{"EOF", "ERROR"}
+		for _, src := range loxSources(pk) {
+			src = stripLoxComments(src)
+			// only the @lexer sections declare tokens; parser rules are lower case and @macro / @frag /
+			// @mode / @start lines do not start with an upper-case identifier
+			for _, m := range loxTokenDecl.FindAllStringSubmatch(src, -1) {
+				want = append(want, m[1])
+			}
+		}
+		// declared by base.gen.go, in value order
+		type kv struct {
+			name string
+			val  int64
+		}
+		var got []kv
+		for _, f := range pk.Syntax {
+			if filepath.Base(p.Fset.Position(f.Pos()).Filename) != "base.gen.go" {
+				continue
+			}
+			for _, d := range f.Decls {
+				gd, ok := d.(*ast.GenDecl)
+				if !ok || gd.Tok != token.CONST {
+					continue
+				}
+				for _, sp := range gd.Specs {
+					vs := sp.(*ast.ValueSpec)
+					for i, nm := range vs.Names {
+						if i < len(vs.Values) {
+							if v, ok := constInt(pk.TypesInfo, vs.Values[i]); ok {
+								got = append(got, kv{nm.Name, v})
+							}
+						}
+					}
+				}
+			}
+		}
+		sort.Slice(got, func(i, j int) bool { return got[i].val < got[j].val })
+		var gotNames []string
+		for _, g := range got {
+			gotNames = append(gotNames, g.name)
+		}
+		n++
+		same := len(want) == len(gotNames)
+		for i := 0; same && i < len(want); i++ {
+			same = want[i] == gotNames[i]
+		}
+		c.check(same, rule, dir+"/token-constants", dir+"/base.gen.go",
+			fmt.Sprintf("base.gen.go declares EOF, ERROR and the %d tokens of the grammar files of the directory, in declaration order", len(want)-2),
+			fmt.Sprintf("the token constants of base.gen.go %v are not the terminals the grammar next to it declares %v: the directory was not regenerated after the grammar changed", gotNames, want))
+	}
+	if n < 4 {
+		c.unres(rule, "grammar-directories", "", "only %d of the 4 directories could be compared", n)
 	}
 }
